@@ -12,15 +12,18 @@ Init == s = InitSession /\ hist = <<>>
 Analyze(r) == /\ Len(hist) < MaxLen
               /\ s' = AnalyzeEffect(s, r)
               /\ hist' = Append(hist, r)
+Work == /\ s.age < MaxAge /\ s' = WorkEffect(s) /\ hist' = hist
 \* a new process: nothing is carried over
-FreshProcess == /\ hist # <<>> /\ s' = InitSession /\ hist' = <<>>
-Next == (\E r \in Req : Analyze(r)) \/ FreshProcess
+FreshProcess == /\ (hist # <<>> \/ s.age > 0) /\ s' = InitSession /\ hist' = <<>>
+Next == (\E r \in Req : Analyze(r)) \/ Work \/ FreshProcess
 Spec == Init /\ [][Next]_vars
 
-TypeOK == s.loaded \subseteq Archs /\ s.parsers \subseteq Isas
+TypeOK == s.loaded \subseteq Archs /\ s.parsers \subseteq Isas /\ s.age \in 0..MaxAge
 ReportIsFunctionOfRequest == hist # <<>> => s.last = Ref(hist[Len(hist)])
 SharedUnchanged == [][s'.shared = s.shared]_vars
 LoadedGrows == [][FreshProcess \/ s.loaded \subseteq s'.loaded]_vars
+\* Work is invisible: it changes nothing an analysis reads
+WorkChangesOnlyTheClock == [][Work => [s' EXCEPT !.age = 0] = [s EXCEPT !.age = 0]]_vars
 
 Emit == (hist # <<>>) =>
    CSVWrite("%1$s", <<ToJson([h |-> hist,
